@@ -131,6 +131,7 @@ class PassHarness(Harness):
     W = 80
     timeout_ms = 30000
     prove_timeout_ms = 90000
+    prove_uf_first = True      # * / % abstracted to uninterpreted functions first (sound: unsat there implies unsat)
 
     def __init__(self, prop, prog, config, symconst):
         self.prop = prop
@@ -237,7 +238,7 @@ HEAVY = {"calls", "recursion", "incdec", "compound", "nested_loops", "long_arith
 
 # programs whose address arithmetic multiplies by constants: with SYMBOLIC constants the obligations become
 # symbolic x symbolic products under array reads, which z3 does not decide in reasonable time
-NO_SYMCONST = {"const_fold", "global_array", "local_array", "store_load_alias_store", "pointer_arg", "struct", "store_narrowload_store"}
+NO_SYMCONST = {"const_fold", "incdec", "compound", "global_array", "local_array", "store_load_alias_store", "pointer_arg", "struct", "store_narrowload_store"}
 
 
 def jobs_for(prop, tier, seed):
